@@ -474,6 +474,26 @@ GranularityInfo<IntegerT> computeGranularity(
   return {granularity, trimmedEnd, hasTail};
 }
 
+// Run the calling thread's share of a waiting parallel_for.  The scheduled workers reference state
+// that lives in the caller's frames (stripe state, chunk index, the functor), so if the caller's share
+// throws, the frames must not unwind before the workers are done.
+template <typename TaskSetT, typename W>
+inline void runCallerShare(TaskSetT& taskSet, W&& work) {
+#if defined(__cpp_exceptions)
+  try {
+    work();
+  } catch (...) {
+    try {
+      taskSet.wait();
+    } catch (...) {
+    }
+    throw;
+  }
+#else
+  work();
+#endif
+}
+
 // Adaptive (stripe-based) wait dispatch for the top-level parallel_for.
 template <typename TaskSetT, typename IntegerT, typename F, typename StateContainer>
 void parallel_for_adaptiveWaitDispatch(
@@ -513,7 +533,7 @@ void parallel_for_adaptiveWaitDispatch(
   }
   auto callerIt = states.begin();
   std::advance(callerIt, static_cast<ptrdiff_t>(numToLaunch));
-  worker(*callerIt, static_cast<uint32_t>(numToLaunch));
+  runCallerShare(taskSet, [&]() { worker(*callerIt, static_cast<uint32_t>(numToLaunch)); });
   taskSet.wait();
 }
 
